@@ -554,12 +554,17 @@ def extrema(ctx, o, core):
                 o.site(f, n, "sequence concatenated with a literal element")
                 continue
             cn = fl.node_of_expr(n)
+            # expression-level guard: max(x) if x else ...
+            root = cn.ast if cn is not None else None
+            ec = eval_conditions(root.test if isinstance(root, (ast.If, ast.While)) else root, n) if root is not None else None
+            if ec and any((sched.is_emptiness(t, p) or (None, None))[1] is False and same((sched.is_emptiness(t, p))[0], seq) for t, p in ec):
+                o.site(f, n, "sequence tested non-empty in the same expression")
+                continue
             if isinstance(seq, ast.Name):
                 # every reaching definition non-empty, or an emptiness fallback dominates
                 defs = fl.reaching(seq.id, cn)
                 conds = facts.node_conditions(prog, f, n, ctx.typer, expand=False)
-                guarded = any((match(f"len({seq.id}) == 0", t) and not p) or (match(f"len({seq.id})", t) and p) or
-                              (match(f"len({seq.id}) > 0", t) and p) or (match(seq.id, t) and p) for t, p in conds)
+                guarded = any((sched.is_emptiness(t, p) or (None, None))[1] is False and same(sched.is_emptiness(t, p)[0], seq) for t, p in conds)
                 refill = [d for d in defs if d.kind == 'assign' and _has_literal_element(d.value)]
                 if guarded or (refill and len(defs) >= 2 and _fallback_dominates(f, seq.id, cn)):
                     o.site(f, n, f"{seq.id} non-empty by emptiness test / fallback")
